@@ -151,7 +151,10 @@ def parse(path):
         elif d == 'cret':
             clos['ret'] = arg
         elif d == 'adapter':
-            clos['adapter'] = arg
+            aa = arg.split()
+            clos['adapter'] = aa[0]
+            if len(aa) > 1:
+                clos['adapter_recv'] = aa[1]
         elif d == 'bind':
             clos['bind'] = arg
         elif d == 'crequires':
@@ -174,7 +177,7 @@ def parse(path):
             if a[0] in ('loop_start', 'loop_end'):
                 ins['loop'] = int(a[1])
                 ins['text'] = text
-            elif a[0] in ('before', 'after'):
+            elif a[0] in ('before', 'after', 'arm_start', 'arm_end'):
                 ins['nth'] = int(a[1]) if len(a) > 1 else 0
                 first, _, rest = text.partition('\n')
                 m = re.match(r'^\s*`(.*)`\s*$', first)
@@ -256,6 +259,8 @@ def job(u, sentinel=False):
                     e['adapter'] = v['adapter']
                 if 'bind' in v:
                     e['bind'] = v['bind']
+                if 'adapter_recv' in v:
+                    e['adapter_recv'] = v['adapter_recv']
                 cl[k] = e
             j['closures'] = cl
         if it['inserts']:
